@@ -16,7 +16,7 @@ import (
 
 // Tokenizer kinds used across the tokenizer checks.
 var builtinTokenizers = []string{"generic", "expression", "csv", "mustache"}
-var allTokenizers = []string{"generic", "expression", "csv", "mustache", "csvtab", "genericcpp"}
+var allTokenizers = []string{"generic", "expression", "csv", "mustache", "csvtab", "genericcpp", "csvq"}
 
 func newTokenizer(kind string) tokenizers.ITokenizer {
 	switch kind {
@@ -30,6 +30,10 @@ func newTokenizer(kind string) tokenizers.ITokenizer {
 		t := csv.NewCsvTokenizer()
 		t.SetFieldSeparators([]rune{'\t', ';'})
 		t.SetQuoteSymbols([]rune{'\'', '"'})
+		return t
+	case "csvq": // CSV whose only quote symbol is the apostrophe: '"' is ordinary data
+		t := csv.NewCsvTokenizer()
+		t.SetQuoteSymbols([]rune{'\''})
 		return t
 	case "mustache":
 		return mtok.NewMustacheTokenizer()
